@@ -64,6 +64,7 @@ SliceInvariant ==
      /\ Len(v.stk) = m.nslots
      /\ (m.cont # NoCont) <=> (v.ct # "Stopped")
 
+NoRunWithErrors == ErrorsBlock(v)
 \* ---- the VM's own invariants, at every opcode boundary
 VTypeOK == /\ v.pc >= 0 /\ v.pc <= Len(v.P.link.ops)
            /\ Len(v.stk) <= Limit + 1
